@@ -496,3 +496,13 @@ def run(ck, facts):
     ck.rule("R9", "C++ writer adapter: _grow resizes to the requested size then publishes cap = length() and a fresh buf; _flush trims to len; WriteFromString starts with len = cap = length()")
     import c02
     c02.cpp_writer_rules(ck, "R9")
+
+
+def run_thorough(ck, facts):
+    """Thorough tier: compile-fail witnesses for the type-level clauses, and the runtime rules again on the feature-less build of diplomat-runtime."""
+    import thorough
+    thorough.witnesses(ck, "T1", "c12")
+    alt = thorough.altcfg_runtime()
+    ck.units.append("diplomat_runtime.lib built with --no-default-features (MIR)")
+    sub = C.SubCheck(ck, "T2", "the runtime-level rules hold as well for diplomat-runtime compiled without its optional features (what a no-jvm, no-log dependent links)", ['R1', 'R2', 'R3', 'R4', 'R5', 'R6', 'R8', 'R10'])
+    run(sub, alt)
